@@ -8,18 +8,31 @@ C14 on the source text: the packed age / bound byte of a transposition-table ent
   * the age read back is the age written, reduced to six bits (and exactly the age written when it is below 64);
   * writing a node type (0..3) is read back and never disturbs the age;
   * neither setter touches hash, move, score or depth.
-Proved by `tie_tac` (bitwise extensionality), so a value-preserving rewrite of the four one-liners is re-proved on the next run.
-Recorded as a T1 tie module (non-fatal, `ties_lost`): a rewrite that leaves the translator's subset must not raise an alarm.
+Proved by `tie_tac` (bitwise extensionality) with a complete fallback (`byte_exhaust`: all 2^16 pairs evaluated by the kernel), so for the four
+one-liners the module is a decision procedure: whatever the Go text says, as long as it stays in the translator's subset and reads only the
+packed byte, the statements are proved iff they are true.  Required (a C14 obligation) when the four functions were translated; when one of
+them left the translator's subset (stub, listed in `Src.untranslated`) the module is recorded as a lost tie instead and raises no alarm.
 -/
 namespace Clemens
 open Src
 set_option maxHeartbeats 1000000
 
+/-- complete fallback for the byte-level statements: reduce to the packed byte and evaluate all 2^16 (byte, argument) pairs in the kernel
+(about a minute; only reached when `tie_tac` does not carry a rewritten definition, e.g. one using `+` instead of `|`) -/
+macro "byte_exhaust" : tactic => `(tactic| (
+  simp only [tt.ttEntry_getNodeType, tt.ttEntry_setAge, tt.ttEntry_getAge, tt.ttEntry_setNodeType]
+  src_unfold_helpers
+  generalize tt.ttEntry.ageAndNodeType _ = x
+  revert x
+  decide +kernel))
+
 theorem src_setAge_keeps_nodeType (e : tt.ttEntry) (a : BitVec 8) :
-    tt.ttEntry_getNodeType (tt.ttEntry_setAge e a) = tt.ttEntry_getNodeType e := by tie_tac
+    tt.ttEntry_getNodeType (tt.ttEntry_setAge e a) = tt.ttEntry_getNodeType e := by
+  first | tie_tac | (revert a; byte_exhaust)
 
 theorem src_setAge_get_mod (e : tt.ttEntry) (a : BitVec 8) :
-    tt.ttEntry_getAge (tt.ttEntry_setAge e a) = a &&& 63#8 := by tie_tac
+    tt.ttEntry_getAge (tt.ttEntry_setAge e a) = a &&& 63#8 := by
+  first | tie_tac | (revert a; byte_exhaust)
 
 theorem byte_lt_64 : ∀ a : BitVec 8, a.toNat < 64 → a &&& 63#8 = a := by decide +kernel
 theorem byte_lt_4 : ∀ a : BitVec 8, a.toNat < 4 → a &&& 3#8 = a := by decide +kernel
@@ -29,7 +42,8 @@ theorem src_setAge_get (e : tt.ttEntry) (a : BitVec 8) (h : a.toNat < 64) :
   rw [src_setAge_get_mod, byte_lt_64 a h]
 
 theorem src_setNodeType_get_mod (e : tt.ttEntry) (nt : BitVec 8) :
-    tt.ttEntry_getNodeType (tt.ttEntry_setNodeType e (nt &&& 3#8)) = nt &&& 3#8 := by tie_tac
+    tt.ttEntry_getNodeType (tt.ttEntry_setNodeType e (nt &&& 3#8)) = nt &&& 3#8 := by
+  first | tie_tac | (revert nt; byte_exhaust)
 
 theorem src_setNodeType_get (e : tt.ttEntry) (nt : BitVec 8) (h : nt.toNat < 4) :
     tt.ttEntry_getNodeType (tt.ttEntry_setNodeType e nt) = nt := by
@@ -37,7 +51,8 @@ theorem src_setNodeType_get (e : tt.ttEntry) (nt : BitVec 8) (h : nt.toNat < 4) 
   rwa [byte_lt_4 nt h] at this
 
 theorem src_setNodeType_keeps_age_mod (e : tt.ttEntry) (nt : BitVec 8) :
-    tt.ttEntry_getAge (tt.ttEntry_setNodeType e (nt &&& 3#8)) = tt.ttEntry_getAge e := by tie_tac
+    tt.ttEntry_getAge (tt.ttEntry_setNodeType e (nt &&& 3#8)) = tt.ttEntry_getAge e := by
+  first | tie_tac | (revert nt; byte_exhaust)
 
 theorem src_setNodeType_keeps_age (e : tt.ttEntry) (nt : BitVec 8) (h : nt.toNat < 4) :
     tt.ttEntry_getAge (tt.ttEntry_setNodeType e nt) = tt.ttEntry_getAge e := by
